@@ -267,11 +267,15 @@ Fixpoint drain (fuel : nat) (r : rd) (acc : bytes) {struct fuel} : bytes * Z :=
 
 Definition vaddr (a : option (bytes * Z)) : val :=
   match a with None => VL [] | Some (ip, p) => VL [VB (canon_ip ip); VZ p] end.
+(* the destination column also carries a flag: BalancerAddr() is the socket's peer address (and LocalAddr() the
+   socket's local address) exactly when a virtual address is reported; without one BalancerAddr() is nil *)
+Definition vaddr_d (a : option (bytes * Z)) : val :=
+  match a with None => VL [] | Some (ip, p) => VL [VB (canon_ip ip); VZ p; VZ 1] end.
 
 Definition eff_limit (limit : Z) : Z := if limit <=? 0 then 2048 else limit.
 
 (* the whole connection: NewConn(conn, _, limit); RemoteAddr(); VirtualAddr(); Read until error.
-   observation [src dst data err closed] *)
+   observation [src dst data err closed], dst = [] or [ip port 1] *)
 Definition end_of (tmo : bool) : Z := if tmo then E_TMO else E_EOF.
 (* tmo: the peer stays silent after the last chunk (the header deadline fires) instead of closing; once the header
    phase is over the deadline is cleared and the harness' connection reports EOF *)
@@ -294,7 +298,7 @@ Definition conn_run (tmo : bool) (limit : Z) (chunks : list bytes) (ora_s ora_d 
                           end
                    | _ => (None, None)
                    end in
-    VL [vaddr s; vaddr d; VB data; VZ code; VZ 0]
+    VL [vaddr s; vaddr_d d; VB data; VZ code; VZ 0]
   end.
 
 (* ------------------------------------------------------------------ specification *)
